@@ -1,7 +1,7 @@
 (** C12 — malformed AML is rejected with an error, never a crash, hang or stray pointer.
     Statements only; every proof is [exact <lemma>] (Aml/LexProofs.v). *)
 From Coq Require Import NArith List.
-From FF Require Import Lib.Word Gen.Consts_device_acpi_aml Aml.Stream Aml.Lex Aml.LexProofs Aml.Tree Aml.TreeSpec Aml.Parser Aml.ParserProofs Aml.ParserProofsTop Aml.ParserTotalFirst Aml.ParserTotalConn Aml.ParserTotalTop Aml.ParserTotalNonNamed Aml.ParserTotalCalls Aml.ParserTotalReloc Aml.ParserTotalMerge Aml.ParserTotalResolve Aml.ParserTotalBase Aml.ParserTotalLex Aml.ParserTotalTree Aml.ParserTotalDefer Aml.ParserTotalDeferW Aml.ParserTotalDeferV Aml.ParserTotalTyped Aml.ParserTotalShape Aml.ParserTotalChain Aml.ParserTotalConn2 Aml.ParserTotalPass2 Aml.ParserTotalBenign Aml.ParserTotalFirst2 Aml.ParserTotalNameLex Aml.ParserTotalGoodPath Aml.ParserTotalFreeName Aml.ParserTotalPass1 Aml.ParserTotalLoad.
+From FF Require Import Lib.Word Gen.Consts_device_acpi_aml Aml.Stream Aml.Lex Aml.LexProofs Aml.Tree Aml.TreeSpec Aml.Parser Aml.ParserProofs Aml.ParserProofsTop Aml.ParserTotalFirst Aml.ParserTotalConn Aml.ParserTotalTop Aml.ParserTotalNonNamed Aml.ParserTotalCalls Aml.ParserTotalReloc Aml.ParserTotalMerge Aml.ParserTotalResolve Aml.ParserTotalBase Aml.ParserTotalLex Aml.ParserTotalTree Aml.ParserTotalDefer Aml.ParserTotalDeferW Aml.ParserTotalDeferV Aml.ParserTotalTyped Aml.ParserTotalShape Aml.ParserTotalChain Aml.ParserTotalConn2 Aml.ParserTotalPass2 Aml.ParserTotalBenign Aml.ParserTotalFirst2 Aml.ParserTotalNameLex Aml.ParserTotalGoodPath Aml.ParserTotalPass1 Aml.ParserTotalHandle Aml.ParserTotalLoad Aml.ParserTotalMeth.
 Import ListNotations.
 Local Open Scope N_scope.
 
@@ -639,7 +639,7 @@ Theorem C12_parse_total_partial_first_pass_shape :
     (forall i o, TreeSpec.get tree i = Some o -> o_opcode o <> opFreed -> opInfo (o_infoIndex o) <> None) ->
     glive g 0 -> groot g 0 ->
     (exists o, TreeSpec.get tree 0 = Some o /\ o_opcode o = aml_pOpIntScopeBlock) ->
-    TM2 tree g -> (forall i o, TreeSpec.get tree i = Some o -> o_opcode o = opFreed -> name_lead (o_name o) = false) ->
+    TM2 tree g ->
     (forall i o, TreeSpec.get tree i = Some o -> o_tableHandle o <> handle) ->
     image_small data ->
     N.of_nat (length (t_pool tree)) + 4 * N.of_nat (length data) + 4 <= InvalidIndex ->
@@ -668,10 +668,8 @@ Print Assumptions C12_parse_total_namestring_good.
     the pool BEFORE the call and about sizes - nothing about the run:
       - [R], valid opcode-table indexes, a live parentless ScopeBlock root in slot 0;
       - the Methods already in the pool are typed (TM2: a name-path, a byte constant, no pending flags - what an earlier ParseAML leaves);
-      - every FREE slot carries a name without lead character (newObject keeps the NAME of a reused free slot, and
-        mergeScopeDirectives resolves the target of a Scope directive among objects that include the directive itself: with a stale
-        lead name in a free slot, Find can return the directive and free() then panics; the slots mergeScopeDirectives frees -
-        directive, path object, ScopeBlock - never received a name);
+      - (nothing about free slots: newObject clears the name of a reused slot since /repo d18acb2, so a Scope directive created
+        in a reused slot carries the zero name and a lookup never returns the directive itself);
       - every name-path-or-call object carries a []byte, the slices of the pool lie inside the earlier tables;
       - no object carries the handle of the new table; the image is a table image of at most 2^28 bytes;
       - an explicit (generous, quadratic) memory bound: pool slots + 4 * image bytes, times (8 * image bytes + 3), below 2^32 - 1.
@@ -685,7 +683,6 @@ Theorem C12_parse_total_never_panics :
     glive g 0 -> groot g 0 ->
     (exists o, TreeSpec.get tree 0 = Some o /\ o_opcode o = aml_pOpIntScopeBlock) ->
     TM2 tree g ->
-    (forall i o, TreeSpec.get tree i = Some o -> o_opcode o = opFreed -> name_lead (o_name o) = false) ->
     (forall i o, TreeSpec.get tree i = Some o -> o_opcode o <> opFreed -> o_opcode o = aml_pOpIntNamePathOrMethodCall ->
                  exists tbl sl, o_value o = Some (VBytes tbl sl)) ->
     pool_ok earlier tree ->
@@ -711,7 +708,6 @@ Theorem C12_parse_total_parseAML_never_panics :
     glive g 0 -> groot g 0 ->
     (exists o, TreeSpec.get tree 0 = Some o /\ o_opcode o = aml_pOpIntScopeBlock) ->
     TM2 tree g ->
-    (forall i o, TreeSpec.get tree i = Some o -> o_opcode o = opFreed -> name_lead (o_name o) = false) ->
     (forall i o, TreeSpec.get tree i = Some o -> o_opcode o <> opFreed -> o_opcode o = aml_pOpIntNamePathOrMethodCall ->
                  exists tbl sl, o_value o = Some (VBytes tbl sl)) ->
     pool_ok earlier tree ->
@@ -758,14 +754,70 @@ Proof. exact load_first_table_never_panics. Qed.
 Print Assumptions C12_parse_total_load_first_table_never_panics.
 
 
-(** A SEQUENCE of tables, MODULO what is not proved about the state ParseAML returns.  [INV] collects the hypotheses of
-    C12_parse_total_never_panics (with "every handle in the pool is below the next handle" for freshness); it holds for the pool of
-    CreateDefaultScopes (ds_INV).  [SEQ] asks, for each table in turn, the size hypotheses ([fits]: image_small and the quadratic
-    memory bound over the pool at that moment) and the residue [RES] about the state a successful ParseAML returned: root facts,
-    Method typing TM2, lead-less names in the free slots, []byte typing and the handle bound - the conjuncts of [INV] that are NOT yet
-    derived for the post-state ([R], valid indexes and slices-inside are derived).  Under these, loading any number of tables never
-    panics.  The missing lemmas are exactly "ParseAML re-establishes RES": TM2 and the root facts through resolveMethodCalls and
-    connectNonNamedObjArgs, lead-less names for the two children of a Scope directive through mergeScopeDirectives' free. *)
+(** WHAT A SUCCESSFUL ParseAML RETURNS: under the hypotheses of C12_parse_total_never_panics, when parseAML_body returns (any fuel) the
+    pool satisfies [R], valid indexes and slices-inside, and when it returns SUCCESS ([b = true]) in addition slot 0 is again a live
+    parentless ScopeBlock ([KR]) and every name-path-or-call object carries a []byte ([tpost]).  Proof: the chain of the end-to-end
+    theorem with an abstract invariant threaded through the last three passes (ParserTotalNonNamed / ParserTotalCalls: sections Inv,
+    hypotheses Kmove / Kupd; ParserTotalDeferV.deferred_tail_post; ParserTotalChain.rest_post; ParserTotalPass2.rest2_post;
+    ParserTotalPass1.parseAML_body_post), instantiated with "slot 0 holds a ScopeBlock". *)
+Theorem C12_parse_total_post_root :
+  forall (tree : T) (g : ghost) (earlier : list (list N)) (handle : N) (data : list N) (fuel : nat),
+    R tree g ->
+    (forall i o, TreeSpec.get tree i = Some o -> o_opcode o <> opFreed -> opInfo (o_infoIndex o) <> None) ->
+    glive g 0 -> groot g 0 ->
+    (exists o, TreeSpec.get tree 0 = Some o /\ o_opcode o = aml_pOpIntScopeBlock) ->
+    TM2 tree g ->
+    (forall i o, TreeSpec.get tree i = Some o -> o_opcode o <> opFreed -> o_opcode o = aml_pOpIntNamePathOrMethodCall ->
+                 exists tbl sl, o_value o = Some (VBytes tbl sl)) ->
+    pool_ok earlier tree ->
+    (forall i o, TreeSpec.get tree i = Some o -> o_tableHandle o <> handle) ->
+    image_small data ->
+    (let L := N.of_nat (length (t_pool tree)) + 4 * N.of_nat (length data) + 2 in
+     L + L * (8 * N.of_nat (length data) + 3) + 4 <= InvalidIndex) ->
+    match parseAML_body fuel (init_state tree earlier handle data) with
+    | Ok (b, s') => exists g', R (p_tree s') g' /\
+        (forall i o, TreeSpec.get (p_tree s') i = Some o -> o_opcode o <> opFreed -> opInfo (o_infoIndex o) <> None) /\
+        pool_ok (p_tables s') (p_tree s') /\
+        (b = true -> glive g' 0 /\ groot g' 0 /\
+           (forall i o, TreeSpec.get (p_tree s') i = Some o -> o_opcode o <> opFreed -> o_opcode o = aml_pOpIntNamePathOrMethodCall ->
+                        exists tbl sl, o_value o = Some (VBytes tbl sl)) /\
+           (exists o, TreeSpec.get (p_tree s') 0 = Some o /\ o_opcode o = aml_pOpIntScopeBlock))
+    | Panic => False
+    | OutOfFuel => True
+    end.
+Proof. exact parseAML_body_post_root. Qed.
+Print Assumptions C12_parse_total_post_root.
+
+(** HANDLES: ParseAML never changes the handle of an existing slot and creates objects with the handle of the table being parsed only
+    (partial-correctness judgement [hb] over every function of all six passes, ParserTotalHandle.v). *)
+Theorem C12_parse_total_handles :
+  forall (tree : T) (earlier : list (list N)) (h : N) (data : list N) (b : bool) (s' : pstate),
+    (forall i o, TreeSpec.get tree i = Some o -> o_tableHandle o <= h) ->
+    parseAML tree earlier h data = Ok (b, s') ->
+    forall i o, TreeSpec.get (p_tree s') i = Some o -> o_tableHandle o <= h.
+Proof. exact parseAML_handles. Qed.
+Print Assumptions C12_parse_total_handles.
+
+(** A SEQUENCE of tables.  [INV] collects the hypotheses of C12_parse_total_never_panics about the pool (with "every handle in the
+    pool is below the next handle" for freshness); it holds for the pool of CreateDefaultScopes (ds_INV).  [fits] is the size
+    hypothesis (image_small and the quadratic memory bound over the pool at that moment).
+    C12_parse_total_parseAML_keeps_invariant_mod: a SUCCESSFUL ParseAML re-establishes [INV] for the next handle MODULO ONE conjunct,
+    [RES] = "the Methods of the returned pool are typed (TM2)": [R], valid indexes, slices inside the tables, the live parentless
+    ScopeBlock root, the []byte typing and the handle bound ARE derived (theorems above).
+    C12_parse_total_load_sequence_never_panics_mod / _load_never_panics_mod: loading any number of tables never panics, where [SEQ]
+    asks for each table in turn [fits] and the residue [RES] about the state a successful ParseAML returned.
+    What is missing for the unconditional theorem is exactly "ParseAML re-establishes TM2".  TM2 as stated is NOT an invariant of
+    resolveMethodCalls / connectNonNamedObjArgs in the abstract (a state whose Method has a name-path-or-call object, or an object
+    with children, as first child satisfies TM2, and the pass may move the flags argument below it); the invariant that IS preserved
+    is the concrete typing "first child: a childless pOpIntNamePath object with its own row, second child: a pOpBytePrefix object with
+    its row and a number", and it still has to be threaded through all six passes (see notes/c12res.md). *)
+Theorem C12_parse_total_parseAML_keeps_invariant_mod :
+  forall (tree : T) (g : ghost) (earlier : list (list N)) (h : N) (data : list N) (s : pstate),
+    INV tree g earlier h -> fits tree data -> parseAML tree earlier h data = Ok (true, s) -> RES s ->
+    exists g', INV (p_tree s) g' (earlier ++ [data]) (h + 1).
+Proof. exact parseAML_keeps_INV_mod. Qed.
+Print Assumptions C12_parse_total_parseAML_keeps_invariant_mod.
+
 Theorem C12_parse_total_load_sequence_never_panics_mod :
   forall (payloads : list (list N)) (tree : T) (g : ghost) (earlier : list (list N)) (h : N),
     INV tree g earlier h -> SEQ tree earlier h payloads -> fst (fst (load_tables tree earlier h payloads)) <> 2.
@@ -776,3 +828,94 @@ Theorem C12_parse_total_load_never_panics_mod :
   forall payloads : list (list N), SEQ ds_tree [] 1 payloads -> fst (fst (load payloads)) <> 2.
 Proof. exact load_never_panics_mod. Qed.
 Print Assumptions C12_parse_total_load_never_panics_mod.
+
+(** THE METHOD TYPING THROUGH THE LAST TWO PASSES.  [TM3] is the concrete typing of Method objects: the first child is a CHILDLESS
+    pOpIntNamePath object with the name-path row, the second a pOpBytePrefix object with its row and a number.  It implies TM2
+    (C12_parse_total_methods_TM3_TM2) and - unlike TM2, which allows a name-path-or-call object or an object with children in first
+    position - it IS preserved by resolveMethodCalls and by connectNonNamedObjArgs from any state with [R], valid indexes, slices
+    inside, []byte typing and a live parentless root: attachSiblingsAsArgs never takes the flags argument away (the name path has no
+    children and its row asks for no arguments), a rewritten name-path-or-call object is none of the three objects.  (Instances
+    TM3_move / TM3_upd of the abstract invariant of ParserTotalNonNamed.v / ParserTotalCalls.v.)  NOT proved: TM3 through the first four
+    passes (for Methods created inside deferred blocks the block proof lacks a typing of the scope stack), hence the _mod above. *)
+Theorem C12_parse_total_methods_TM3_TM2 : forall (t : T) (g : ghost), TM3 t g -> TM2 t g.
+Proof. exact TM3_TM2. Qed.
+Print Assumptions C12_parse_total_methods_TM3_TM2.
+
+Theorem C12_parse_total_partial_resolveMethodCalls_keeps_methods :
+  forall (fuel : nat) (s : pstate) (g : ghost),
+    R (p_tree s) g ->
+    (forall i o, TreeSpec.get (p_tree s) i = Some o -> o_opcode o <> opFreed -> opInfo (o_infoIndex o) <> None) ->
+    pool_ok (p_tables s) (p_tree s) ->
+    (forall i o, TreeSpec.get (p_tree s) i = Some o -> o_opcode o <> opFreed -> o_opcode o = aml_pOpIntNamePathOrMethodCall ->
+                 exists tbl sl, o_value o = Some (VBytes tbl sl)) ->
+    glive g 0 -> groot g 0 -> TM3 (p_tree s) g ->
+    match resolveMethodCalls fuel 0 s with
+    | Ok (_, s') => exists g', R (p_tree s') g' /\
+        (forall i o, TreeSpec.get (p_tree s') i = Some o -> o_opcode o <> opFreed -> opInfo (o_infoIndex o) <> None) /\
+        pool_ok (p_tables s') (p_tree s') /\
+        (forall i o, TreeSpec.get (p_tree s') i = Some o -> o_opcode o <> opFreed -> o_opcode o = aml_pOpIntNamePathOrMethodCall ->
+                     exists tbl sl, o_value o = Some (VBytes tbl sl)) /\
+        glive g' 0 /\ groot g' 0 /\ TM3 (p_tree s') g'
+    | Panic => False
+    | OutOfFuel => True
+    end.
+Proof. exact resolveMethodCalls_keeps_TM3. Qed.
+Print Assumptions C12_parse_total_partial_resolveMethodCalls_keeps_methods.
+
+Theorem C12_parse_total_partial_connectNonNamedObjArgs_keeps_methods :
+  forall (fuel : nat) (s : pstate) (g : ghost),
+    R (p_tree s) g ->
+    (forall i o, TreeSpec.get (p_tree s) i = Some o -> o_opcode o <> opFreed -> opInfo (o_infoIndex o) <> None) ->
+    pool_ok (p_tables s) (p_tree s) ->
+    (forall i o, TreeSpec.get (p_tree s) i = Some o -> o_opcode o <> opFreed -> o_opcode o = aml_pOpIntNamePathOrMethodCall ->
+                 exists tbl sl, o_value o = Some (VBytes tbl sl)) ->
+    glive g 0 -> groot g 0 -> TM3 (p_tree s) g ->
+    match connectNonNamedObjArgs fuel 0 s with
+    | Ok (_, s') => exists g', R (p_tree s') g' /\
+        (forall i o, TreeSpec.get (p_tree s') i = Some o -> o_opcode o <> opFreed -> opInfo (o_infoIndex o) <> None) /\
+        pool_ok (p_tables s') (p_tree s') /\
+        (forall i o, TreeSpec.get (p_tree s') i = Some o -> o_opcode o <> opFreed -> o_opcode o = aml_pOpIntNamePathOrMethodCall ->
+                     exists tbl sl, o_value o = Some (VBytes tbl sl)) /\
+        glive g' 0 /\ groot g' 0 /\ TM3 (p_tree s') g'
+    | Panic => False
+    | OutOfFuel => True
+    end.
+Proof. exact connectNonNamedObjArgs_keeps_TM3. Qed.
+Print Assumptions C12_parse_total_partial_connectNonNamedObjArgs_keeps_methods.
+
+(** THE LOAD SEQUENCE MODULO ONE LEMMA ABOUT parseDeferredBlocks.  [DEF3new] is a single, run-independent proposition about the model:
+    "the Method objects CREATED by a successful parseDeferredBlocks(0) - started in a state with the walk invariant and typed Methods -
+    satisfy the concrete typing TM3" (Methods inside While / Buffer bodies).  Under it:
+      - a successful ParseAML re-establishes the WHOLE loop invariant [INV3] (= INV with TM3 in place of TM2) for the next handle
+        (C12_parse_total_parseAML_keeps_invariant_mod_deferred), and
+      - loading ANY NUMBER of tables never panics, the only hypothesis about the payloads being the sizes [SEQ3] (image_small and the
+        quadratic memory bound over the pool at each step) (C12_parse_total_load_sequence_never_panics_mod_deferred, _load_never_panics_mod_deferred).
+    Everything else about TM3 IS proved: first pass (LI3_next_holds), connectNamedObjArgs (SH3), the resolve loop (KS3), the last two
+    passes (TM3_move / TM3_upd), and parseDeferredBlocks for the Methods that existed before it (C12_parse_total_partial_deferred_keeps_old_methods:
+    [DEF3new] implies [DEF3], by the frame of the walk - two leading children that are not pending stay in front, a childless object
+    that is not pending stays childless).  What the block proof of parseDeferredBlocks lacks for [DEF3new] is a typing of the scope
+    stack in parseModeAllBlocks ("the object on top of the scope stack / whose arguments are parsed is never the name path of a
+    Method"), which makes that name path stay childless. *)
+Theorem C12_parse_total_partial_deferred_keeps_old_methods : DEF3new -> DEF3.
+Proof. exact DEF3_of_new. Qed.
+Print Assumptions C12_parse_total_partial_deferred_keeps_old_methods.
+
+Theorem C12_parse_total_parseAML_keeps_invariant_mod_deferred :
+  DEF3new ->
+  forall (tree : T) (g : ghost) (earlier : list (list N)) (h : N) (data : list N) (s : pstate),
+    INV3 tree g earlier h -> fits tree data -> parseAML tree earlier h data = Ok (true, s) ->
+    exists g', INV3 (p_tree s) g' (earlier ++ [data]) (h + 1).
+Proof. exact parseAML_keeps_INV3. Qed.
+Print Assumptions C12_parse_total_parseAML_keeps_invariant_mod_deferred.
+
+Theorem C12_parse_total_load_sequence_never_panics_mod_deferred :
+  DEF3new ->
+  forall (payloads : list (list N)) (tree : T) (g : ghost) (earlier : list (list N)) (h : N),
+    INV3 tree g earlier h -> SEQ3 tree earlier h payloads -> fst (fst (load_tables tree earlier h payloads)) <> 2.
+Proof. exact load_tables_never_panics3. Qed.
+Print Assumptions C12_parse_total_load_sequence_never_panics_mod_deferred.
+
+Theorem C12_parse_total_load_never_panics_mod_deferred :
+  DEF3new -> forall payloads : list (list N), SEQ3 ds_tree [] 1 payloads -> fst (fst (load payloads)) <> 2.
+Proof. exact load_never_panics3. Qed.
+Print Assumptions C12_parse_total_load_never_panics_mod_deferred.
